@@ -33,10 +33,14 @@ Import ListNotations.
 
 Set Implicit Arguments.
 
-(* Python exceptions that sentinel arithmetic can raise. *)
+(* Python exceptions that sentinel arithmetic can raise (the first two), and tags for
+   exception classes raised by user-supplied eval functions. *)
 Inductive pyerr : Type :=
 | TypeError      (* unsupported operand type(s) for +: ... 'One' / 'Zero' *)
-| SympifyError.  (* Dagger(one): cannot sympify object of type One *)
+| SympifyError   (* Dagger(one): cannot sympify object of type One *)
+| ValueError     (* raised by user code (eval functions), used by the harnesses *)
+| KeyboardInterrupt  (* a BaseException that is not an Exception *)
+| UserError (tag : nat).  (* any other exception class of user code *)
 
 Inductive sval (R : Type) : Type :=
 | SZero : sval R          (* the singleton `zero` *)
